@@ -83,7 +83,23 @@ def placeholder_dfa():
     return {(idx[q], c): idx[r] for (q, c), r in T.items()}, idx["S"], idx["END"]
 
 
+EDIT_ALPHABET = "{}:.*$01a?x<+#q -^_e"
+
+
 def struct_constraint(z3, bs, which="structured"):
+    if which == "placeholder1":
+        # one-edit (substitution) neighbours of the placeholder language: a shadow string s follows the DFA, the literal equals it
+        # everywhere except at one symbolic position, where it holds any character of EDIT_ALPHABET
+        T, q0, qf = placeholder_dfa()
+        n = len(bs)
+        sh = [z3.BitVec("s%d" % i, 8) for i in range(n)]
+        j = z3.BitVec("editpos", 8)
+        ss = [z3.BitVec("q%d" % i, 8) for i in range(n + 1)]
+        cs = [ss[0] == q0, ss[n] == qf, z3.ULT(j, n)]
+        for i in range(n):
+            cs.append(z3.Or(*[z3.And(ss[i] == q, sh[i] == ord(c), ss[i + 1] == r) for (q, c), r in T.items()]))
+            cs.append(z3.If(j == i, z3.And(bs[i] != sh[i], z3.Or(*[bs[i] == ord(c) for c in EDIT_ALPHABET])), bs[i] == sh[i]))
+        return z3.And(*cs)
     if which == "placeholder":
         T, q0, qf = placeholder_dfa()
     else:
@@ -161,6 +177,8 @@ def explore(tier, prop):
         if tier == "thorough":
             # one placeholder with every optional part of a format spec: all lengths of the placeholder language
             passes += [(n, "placeholder") for n in range(2, 19)]
+            # ... and every literal one substituted character away from one of those, up to 7 bytes
+            passes += [(n, "placeholder1") for n in range(2, int(os.environ.get("VERIF_L_EDIT_N", "7")) + 1)]
     passes = [(n, w, None) for n, w in passes] + [(len(t.encode()), "digits", t) for t in digit_templates(tier, prop)]
     res["passes"] = [(n, w) for n, w, _ in passes]
     res["digit_templates"] = digit_templates(tier, prop)
@@ -187,7 +205,7 @@ def explore(tier, prop):
                 st.pc.append(driver.utf8_alphabet_constraint(bs, n, lambda b: z3.ULT(b, 0x80), MULTIBYTE))
             elif n and which == "deep":
                 st.pc.append(z3.And(*[z3.Or(*[b == ord(c) for c in DEEP_ALPHABET]) for b in bs]))
-            elif n and which in ("structured", "placeholder"):
+            elif n and which in ("structured", "placeholder", "placeholder1"):
                 st.pc.append(struct_constraint(z3, bs, which))
             elif n:
                 tb = tmpl.encode()
